@@ -49,6 +49,7 @@ struct NeighCase
   Points targ;                   // targets of a separate dbout (xvmode 0 and 3)
   int xvmode = 0;                // 0 none; 1 leave-one-out (dbout = dbin); 2 k-fold (dbout = dbin);
                                  // 3 cross-validation flag with a separate dbout (some targets on samples)
+                                 // 4 k-fold with a separate dbout carrying its own codes
   std::vector<int> tix;          // xvmode 1/2: raw target ranks (resolved modulo n)
   std::vector<int> order;        // raw sequence of evaluated targets (resolved modulo #targets)
   int nvar = 1;
@@ -141,7 +142,7 @@ static void admissibility(const NeighCase& c, int k, std::vector<int>& base, std
       if (d < 1e-9) ok = false;
       else if (d < 1e-7) amb.push_back(i);
     }
-    else if (c.xvmode == 2)
+    else if (c.xvmode == 2 || c.xvmode == 4)
     {
       if (c.code[(size_t)i] == c.targetCode(k)) ok = false;
     }
@@ -257,7 +258,7 @@ static NeighCase genNeighCase(bool api)
     // api sub: KrigingSystem resets the cross-validation flags of the neighbourhood it is given
     // (ANeigh::reset in its constructor), so krigtest()/test_neigh() only observe the plain search
     int r = api ? 0 : G::i(0, 99);
-    c.xvmode = (r < 50) ? 0 : (r < 70) ? 1 : (r < 85) ? 2 : 3;
+    c.xvmode = (r < 50) ? 0 : (r < 68) ? 1 : (r < 80) ? 2 : (r < 92) ? 3 : 4;
   }
   c.ball = (!api && G::pct(30)) ? 1 : 0;
   // the ball search is compared only where its candidate restriction cannot change the defined set:
@@ -321,7 +322,7 @@ static NeighCase genNeighCase(bool api)
   c.dateChk = (!api && G::pct(10)) ? 1 : 0;
   c.dmin = -(double)G::i(0, 6) - 0.5;
   c.dmax = (double)G::i(0, 6) + 0.5;
-  c.hasCode = (c.xvmode == 2 || c.codeOpt) ? 1 : 0;
+  c.hasCode = (c.xvmode == 2 || c.xvmode == 4 || c.codeOpt) ? 1 : 0;
   c.hasDate = c.dateChk;
   for (int i = 0; i < n0; i++) c.code.push_back(G::i(0, 3));
   for (int i = 0; i < nt0; i++) c.tcode.push_back(G::i(0, 3));
@@ -422,7 +423,7 @@ static bool buildWorld(const NeighCase& c, World& w, Ctx& ctx)
     for (double a : c.angles) angles.push_back(a);
   w.neigh.reset(NeighMoving::create(c.xvmode != 0, c.nmaxi, c.hasRadius ? c.radius : TEST, c.nmini, c.nsect,
                                     c.nsmax > 0 ? c.nsmax : ITEST, coeffs, angles));
-  w.neigh->setFlagKFold(c.xvmode == 2);
+  w.neigh->setFlagKFold(c.xvmode == 2 || c.xvmode == 4);
   // checkers are owned (deleted) by the neighbourhood
   if (c.dateChk) w.neigh->addBiTargetCheck(BiTargetCheckDate::create(c.dmin, c.dmax));
   if (c.codeOpt) w.neigh->addBiTargetCheck(BiTargetCheckCode::create(c.codeOpt, c.codeTol));
@@ -452,7 +453,7 @@ static std::string variantOf(const NeighCase& c)
   if (c.bench) add("bench");
   if (!c.faults.empty()) add("faults");
   if (chk.empty()) chk = "nochk";
-  static const char* xv[] = {"noxv", "xvalid", "kfold", "xvsep"};
+  static const char* xv[] = {"noxv", "xvalid", "kfold", "xvsep", "kfoldsep"};
   return chk + ":" + (c.ball ? "ball" : "scan") + ":" + xv[c.xvmode];
 }
 
@@ -674,6 +675,8 @@ static void runApi(const NeighCase& c, Ctx& ctx)
       ctx.fail("test_neigh-columns:" + var, fmt("%d columns added, expected 5", ncol1 - ncol0));
       return;
     }
+    // MaxDist / MinDist / NbNESect discrepancies (one recorded root cause: summary() reads the state before truncation) are reported after everything else has been checked
+    std::vector<Failure> soft;
     // distinct ranks of the targets under test
     std::set<int> done;
     for (int k = 0; k < nt; k++)
@@ -699,6 +702,17 @@ static void runApi(const NeighCase& c, Ctx& ctx)
         continue;
       }
       ctx.label("summary:compared");
+      // One recorded root cause (NeighMoving::summary reads the candidate list as it was before the
+      // sector quota / nmaxi truncation) can only act when sectors exist and a limit binds: there the
+      // discrepancy gets the key prefix "summary-trunc-" and is reported last; everywhere else it is a
+      // plain failure.
+      bool truncated = paramsOf(c).sectors() && (R.quotaBinds || R.nmaxiBinds);
+      std::string trunc = truncated ? "summary-trunc-" : "summary-";
+      bool hardFail = false;
+      auto softOrHard = [&](const Failure& f) {
+        if (truncated) soft.push_back(f);
+        else { ctx.fail(f.key, f.msg); hardFail = true; }
+      };
       double tolh = 1e-6 * std::max(R.hscale, 1e-300);
       if (col[0] != (double)nsel)
       {
@@ -707,23 +721,24 @@ static void runApi(const NeighCase& c, Ctx& ctx)
       }
       if (!(std::fabs(col[1] - R.hmax) <= tolh))
       {
-        ctx.fail("summary-maxdist:" + var, fmt("target rank %d: MaxDist = %.10g, largest distance of the %d selected samples %.10g "
+        softOrHard({trunc + "maxdist:" + var, fmt("target rank %d: MaxDist = %.10g, largest distance of the %d selected samples %.10g "
                                                "(quota binds %d, nmaxi binds %d)", rank, col[1], nsel, R.hmax,
-                                               (int)R.quotaBinds, (int)R.nmaxiBinds));
-        return;
+                                               (int)R.quotaBinds, (int)R.nmaxiBinds)});
       }
       if (!(std::fabs(col[2] - R.hmin) <= tolh))
       {
-        ctx.fail("summary-mindist:" + var, fmt("target rank %d: MinDist = %.10g, smallest selected distance %.10g", rank, col[2], R.hmin));
-        return;
+        softOrHard({trunc + "mindist:" + var, fmt("target rank %d: MinDist = %.10g, smallest selected distance %.10g (nmaxi binds %d)",
+                                                      rank, col[2], R.hmin, (int)R.nmaxiBinds)});
       }
+      if (hardFail) return;
       int nonEmpty = 0, ns = std::max(c.nsect, 1);
       for (int s = 0; s < ns; s++) nonEmpty += R.sectorCount[(size_t)s] > 0;
       if (col[3] != (double)nonEmpty)
       {
-        ctx.fail("summary-nbnesect:" + var, fmt("target rank %d: NbNESect = %g, sectors holding selected samples %d of %d", rank,
-                                                col[3], nonEmpty, ns));
-        return;
+        softOrHard({trunc + "nbnesect:" + var, fmt("target rank %d: NbNESect = %g, sectors holding selected samples %d of %d", rank,
+                                                       col[3], nonEmpty, ns)});
+        if (hardFail) return;
+        continue; // NbCESect is derived from the same counters
       }
       // consecutive empty sectors: the longest run, counted linearly or around the circle (left open)
       int lin = 0, run = 0;
@@ -742,6 +757,11 @@ static void runApi(const NeighCase& c, Ctx& ctx)
       }
       sig.add(nsel).add(nonEmpty);
       ctx.nontrivial(R.quotaBinds || R.nmaxiBinds || T.exclusionActs);
+    }
+    if (!soft.empty())
+    {
+      ctx.fail(soft[0].key, soft[0].msg);
+      return;
     }
   }
   ctx.sig = sig.h;
@@ -794,7 +814,10 @@ static KnnCase genKnn()
 
 // one answer of the tree against brute force; keys: knn-size, knn-range, knn-dist (a reported distance is
 // not the distance of the reported index), knn-set (not the k closest), knn-order (not increasing)
-static bool checkKnn(const KnnCase& c, int q, const VectorInt& idx, const VectorDouble& dist, const std::string& api, Ctx& ctx)
+// The order check is reported last (after every other check of every API has passed), so that the search
+// keeps looking behind a recorded ordering defect.
+static bool checkKnn(const KnnCase& c, int q, const VectorInt& idx, const VectorDouble& dist, const std::string& api, Ctx& ctx,
+                     std::vector<Failure>& deferred)
 {
   int n = c.data.n();
   vfgeo::KnnRef ref = vfgeo::bruteKnn(c.data, c.query.p(q));
@@ -847,9 +870,9 @@ static bool checkKnn(const KnnCase& c, int q, const VectorInt& idx, const Vector
   for (int j = 1; j < c.k; j++)
     if (dist[j] < dist[j - 1])
     {
-      ctx.fail("knn-order:" + api, fmt("query %d: distances not increasing at position %d: %.17g after %.17g (k=%d n=%d leaf=%d)", q, j,
-                                       dist[j], dist[j - 1], c.k, n, c.leaf));
-      return false;
+      deferred.push_back({"knn-order:" + api, fmt("query %d: distances not increasing at position %d: %.17g after %.17g (k=%d n=%d leaf=%d)",
+                                                  q, j, dist[j], dist[j - 1], c.k, n, c.leaf)});
+      break;
     }
   return true;
 }
@@ -880,6 +903,7 @@ static void runKnn(const KnnCase& c, Ctx& ctx)
     for (int t = 0; t < c.d; t++) db->addColumns(colOf(c.data, t), "x" + std::to_string(t + 1), ELoc::X, t);
     ball.reset(new Ball(db.get(), nullptr, c.leaf));
   }
+  std::vector<Failure> deferred;
   // (1) queryOneAsVD, (2) queryOneInPlace for every query point
   for (int q = 0; q < nq; q++)
   {
@@ -887,7 +911,7 @@ static void runKnn(const KnnCase& c, Ctx& ctx)
     for (int t = 0; t < c.d; t++) pt[t] = c.query.at(q, t);
     ctx.at("queryOneAsVD");
     KNN knn = ball->queryOneAsVD(pt, c.k);
-    if (!checkKnn(c, q, knn.getIndices(0), knn.getDistances(0), "queryOneAsVD", ctx)) return;
+    if (!checkKnn(c, q, knn.getIndices(0), knn.getDistances(0), "queryOneAsVD", ctx, deferred)) return;
     ctx.at("queryOneInPlace");
     VectorInt idx;
     VectorDouble dist;
@@ -897,7 +921,7 @@ static void runKnn(const KnnCase& c, Ctx& ctx)
       ctx.fail("knn-error:queryOneInPlace", "error returned for a valid query");
       return;
     }
-    if (!checkKnn(c, q, idx, dist, "queryOneInPlace", ctx)) return;
+    if (!checkKnn(c, q, idx, dist, "queryOneInPlace", ctx, deferred)) return;
   }
   // (3) queryAsVVD: all query points at once
   {
@@ -906,7 +930,12 @@ static void runKnn(const KnnCase& c, Ctx& ctx)
     ctx.at("queryAsVVD");
     KNN knn = ball->queryAsVVD(test, c.k);
     for (int q = 0; q < nq; q++)
-      if (!checkKnn(c, q, knn.getIndices(q), knn.getDistances(q), "queryAsVVD", ctx)) return;
+      if (!checkKnn(c, q, knn.getIndices(q), knn.getDistances(q), "queryAsVVD", ctx, deferred)) return;
+  }
+  if (!deferred.empty())
+  {
+    ctx.fail(deferred[0].key, deferred[0].msg);
+    return;
   }
   ctx.nontrivial(c.k < n && n > 1);
   Hash sig;
